@@ -154,6 +154,11 @@ class GGen:
         if self.bare and self.names[i] != self.bare and self.p(0.3):
             self.feats.add("ref-to-bare-rule-under-operator")
             return ["ref", self.bare]
+        if self.allow_forced and self.p(0.06):
+            # a forced token behind a group as the target of a lookahead / repetition / gather: it has to be tried each
+            # time the target is, not once while the call is set up
+            self.feats.add("grouped-forced-under-operator")
+            return ["grp", [[[[None, ["forced", self.r.choice(["'a'", "'b'", "','"])]]], None]]]
         if c < 0.5 or depth > 2:
             return self.tok()
         if c < 0.7 and i + 1 < len(self.names):
